@@ -1,5 +1,6 @@
 import Secp.Gen.Formulas
 import Secp.Proofs.AbsSound
+import Secp.Proofs.Slices
 /-
   Props/C16 — no input makes point or signature arithmetic wrap or compare denormalised.
 
@@ -122,6 +123,77 @@ theorem AddNonConst_r1_limbs (p : FPath) (hp : p ∈ AddNonConst_r1.paths) (rl :
     exact of_decide_eq_true this
   have hcf : Secp.Proofs.AbsSound.CallFree p.items := callFree_of_abs p.items _ _ hσ
   exact absPath_sound p.items _ σ' rl rv [] hcf hir hσ hrel
+
+
+/-! ### the signature routines and everything else that touches field values (pass T2s)
+
+  `Secp.Gen.Slices` is REGENERATED on every run: for every function of the three packages outside
+  field.go and the point formulas above whose body touches a FieldVal — Verify, sign,
+  RecoverPublicKey, ParsePubKey, the serialisers, ScalarMultNonConst and ScalarBaseMultNonConst
+  (prelude and loops), ECDH, the crypto/elliptic adaptor, Schnorr sign / verify / parse, the ecckd
+  helpers — the complete list of its execution paths with everything that is not field arithmetic
+  sliced away (conditions on scalars, bytes and errors fork the path without an assumption, so the
+  set of paths over-approximates the real control flow).  `absS` is `absPath` extended by
+  preconditions of limb readers (`chk`: PutBytes, Bytes, IsOddBit, IsGtOrEqPrimeMinusOrder, a
+  returned PublicKey), values entering from bytes (`havoc`), contract calls and loop heads. -/
+
+/-- Every path of every sliced function passes: no Negate with too small a magnitude, no Add/MulInt
+    beyond uint32 capacity, no Mul/Square operand above magnitude 8, no Equals / IsZero / IsOdd /
+    PutBytes / Bytes / IsGtOrEqPrimeMinusOrder on a value not known to be normalised, every loop
+    body returns to a state covered by the loop head, every called routine's precondition holds,
+    and every returned public key / result point is normalised. -/
+theorem slices_ok : Secp.Gen.Slices.allSlices.all (SEntry.ok Secp.Gen.Slices.contracts) = true := by decide +kernel
+
+/-- Every contract used at a call site is justified by re-running the interpreter on ALL paths of the
+    callee from the contract's precondition: AddNonConst (three aliasing patterns), DoubleNonConst
+    (two), Inverse, SquareRootVal on the T2 programs; ScalarMultNonConst and ScalarBaseMultNonConst
+    on their sliced programs. -/
+theorem contracts_justified :
+    Secp.Gen.Slices.contracts.all (Secp.Proofs.Slices.justifiedBy Secp.Gen.Slices.contracts) = true := by decide +kernel
+
+/-- The regenerated table really contains the signature routines the property names (an edit that
+    moves one of them out of the translator's reach is a broken obligation, not a silent gap). -/
+theorem slices_cover :
+    (["github.com/ModChain/secp256k1.Signature.Verify", "github.com/ModChain/secp256k1.sign",
+      "github.com/ModChain/secp256k1.Signature.RecoverPublicKey", "github.com/ModChain/secp256k1.ParsePubKey",
+      "github.com/ModChain/secp256k1.PublicKey.SerializeCompressed", "github.com/ModChain/secp256k1.PublicKey.SerializeUncompressed",
+      "github.com/ModChain/secp256k1.ScalarMultNonConst", "github.com/ModChain/secp256k1.ScalarBaseMultNonConst",
+      "github.com/ModChain/secp256k1.GenerateSharedSecret", "github.com/ModChain/secp256k1.PrivateKey.PubKey",
+      "github.com/ModChain/secp256k1.KoblitzCurve.Add", "github.com/ModChain/secp256k1.KoblitzCurve.Double",
+      "github.com/ModChain/secp256k1.KoblitzCurve.ScalarMult", "github.com/ModChain/secp256k1.KoblitzCurve.ScalarBaseMult",
+      "github.com/ModChain/secp256k1.KoblitzCurve.IsOnCurve",
+      "github.com/ModChain/secp256k1/schnorr.schnorrVerify", "github.com/ModChain/secp256k1/schnorr.schnorrSign",
+      "github.com/ModChain/secp256k1/schnorr.ParseSignature", "github.com/ModChain/secp256k1/schnorr.Signature.Serialize",
+      "github.com/ModChain/secp256k1/ecckd.ExtendedKey.ChildWithIL"].all
+        fun n => Secp.Gen.Slices.allSlices.any fun e => e.name == n) = true := by decide +kernel
+
+/-- `havoc d 1 true` for the 32 bytes written by ModNScalar.PutBytes: a canonical scalar is a
+    canonical field value. -/
+theorem scalar_bytes_are_normalised : Secp.Spec.N < Secp.Spec.P := by decide
+
+/-- On marker-free paths `absS` is `absPath` on the underlying T2 items (so `absPath_sound` applies to
+    the loop-free, call-free segments between `havoc`/`chk` items). -/
+theorem absS_plain (cs : List Contract) : ∀ (items : List PItem) (σ : AState) (st : List AState),
+    absS cs (items.map SItem.p) σ st = absPath items σ
+  | [], _, _ => rfl
+  | .op o :: rest, σ, st => by
+    simp only [List.map_cons, absS, absPath]
+    cases stepA σ o with
+    | none => rfl
+    | some σ' => simpa using absS_plain cs rest σ' st
+  | .assume c v :: rest, σ, st => by
+    simp only [List.map_cons, absS, absPath]
+    split
+    · exact absS_plain cs rest σ st
+    · rfl
+  | .call _ _ :: _, _, _ => by simp [absS, absPath]
+
+/-- non-vacuity of the sliced interpreter: Verify's step 8 without Normalize is rejected, with it accepted;
+    a loop whose body raises the magnitude is rejected -/
+example : absS [] [.havoc 0 1 true, .havoc 1 1 true, .p (.op (.mul2 2 0 1)), .p (.assume (.equals 2 1) true)] [] [] = none := by decide
+example : (absS [] [.havoc 0 1 true, .havoc 1 1 true, .p (.op (.mul2 2 0 1)), .p (.op (.norm 2)), .p (.assume (.equals 2 1) true)] [] []).isSome = true := by decide
+example : absS [] [.havoc 0 1 true, .havoc 1 1 true, .loopBegin, .p (.op (.add 0 1)), .loopEnd] [] [] = none := by decide
+example : (absS [] [.havoc 0 1 true, .havoc 1 1 true, .loopBegin, .p (.op (.add 0 1)), .p (.op (.norm 0)), .loopEnd, .chk 0 1 true] [] []).isSome = true := by decide
 
 /-- the checker is not vacuous: it rejects the doubling formula with Negate(15) in place of Negate(16) -/
 example : absPath [.op (.mulInt 0 8), .op (.mulInt 0 2), .op (.neg 0 0 15)] [nrm] = none := by decide
